@@ -17,6 +17,7 @@ props! {
     "c02" c02,
     "c04" c04,
     "c05" c05,
+    "c06" c06,
     "c08" c08,
     "c09" c09,
     "c13" c13,
